@@ -143,6 +143,64 @@ def main():
         res['joinslice'] = guarded(joinslice)
         return res
 
+    def run_hist(c):
+        """A history on ONE MLMatrix object: queries, reassignments of .data, queries again.
+        Every query is also asked of a freshly constructed object with the current data."""
+        S = mkstruct(c)
+        datashape = tuple(len(b) for b in S.bidx)
+
+        def arr(flat, layout):
+            a = np.array(flat, dtype=float).reshape(datashape)
+            return np.asfortranarray(a) if layout == 'F' else a
+        if (not rect_ok) and S.shape[0] > S.shape[1] and S.L in (2, 3):
+            return {'error': 'Skipped', 'msg': 'rectangular matvec probe failed'}
+        cur = list(c['data'])
+        M = MLMatrix(structure=S, data=arr(cur, c.get('layout', 'C')))
+        out = []
+        for st in c['steps']:
+            op = st['op']
+            if op == 'set':
+                try:
+                    X = np.array(st['data'], dtype=float)
+                    X = X.reshape(datashape) if X.size == int(np.prod(datashape)) else X
+                    if st.get('layout') == 'F' and X.ndim > 1:
+                        X = np.asfortranarray(X)
+                    M.data = X
+                    cur = list(st['data'])
+                    out.append({'accepted': True})
+                except Exception as e:  # noqa
+                    out.append({'accepted': False, 'error': errclass(e)})
+                continue
+            if op == 'from_matrix':
+                A = np.array(st['matrix'], dtype=float).reshape(S.shape)
+                A = scipy.sparse.csr_matrix(A) if st.get('sparse') else A
+                r = guarded(lambda: exact_ints(MLMatrix(structure=S, matrix=A).data))
+                if isinstance(r, list):
+                    M.data = np.array(r, dtype=float).reshape(datashape)
+                    cur = r
+                out.append({'data': r})
+                continue
+            fresh = MLMatrix(structure=S, data=arr(cur, 'C'))
+
+            def q(obj):
+                if op == 'asmatrix':
+                    return canon_sparse(obj.asmatrix(format=st['format']))
+                if op == 'dot':
+                    return exact_ints(obj.dot(np.array(st['x'], dtype=float)))
+                if op == 'matmat':
+                    return exact_ints(obj.dot(np.array(st['x'], dtype=float).reshape(-1, 1)))
+                if op == 'nonzero':
+                    return [ints(a) for a in obj.nonzero(lower_tri=st['lt'])]
+                if op == 'transpose_nz':
+                    return [ints(a) for a in obj.structure.transpose().nonzero()]
+                if op == 'reorder':
+                    return canon_sparse(obj.reorder(tuple(st['axes'])).asmatrix())
+                raise ValueError(op)
+            r = guarded(lambda: q(M))
+            rf = guarded(lambda: q(fresh))
+            out.append({'out': r, 'fresh_same': r == rf})
+        return {'steps': out, 'final_data': guarded(lambda: exact_ints(M.data))}
+
     def run_reindex(c):
         bs = np.array(c['bs'], dtype=np.int64).reshape(-1, 2)
         res = {}
@@ -239,7 +297,7 @@ def main():
                 fails.append({'bad': bad[:1]})
         return {'count': count, 'nontrivial': nontrivial, 'fails': fails[:200]}
 
-    runners = {'sweep': run_sweep, 'ml': run_ml, 'reindex': run_reindex, 'kvs': run_kvs, 'kronp': run_kronp, 'gen': run_gen}
+    runners = {'sweep': run_sweep, 'hist': run_hist, 'ml': run_ml, 'reindex': run_reindex, 'kvs': run_kvs, 'kronp': run_kronp, 'gen': run_gen}
     out = []
     for c in payload['cases']:
         r = guarded(lambda: runners[c['kind']](c))
